@@ -322,6 +322,16 @@ def judge_map_history(seq):
     return out
 
 
+def judge_forms(f, month=7):
+    """input forms for the pressure-map lookup: site latitude / longitude as narrower arrays"""
+    from nuspacesim.simulation.atmosphere.clouds import CloudTopHeight
+
+    from .. import forms
+
+    c = CloudTopHeight(sim.make_config(extra={"simulation": {"cloud_model": {"id": "pressure_map", "month": month}}}))
+    return forms.judge(lambda la, lo: c(la, lo), [np.array([0.0, 1.0, -1.0, 0.5, -1.5]), np.array([0.0, 2.0, -3.0, 3.0, 1.0])], tuple(f), what="pressure-map cloud top")
+
+
 def _map_job(a):
     return judge_map(*a)
 
@@ -351,6 +361,12 @@ def run(ctx):
         ctx.tick(n, ("const", kind, alt))
         for c, e, o in v:
             ctx.violation(c, {"kind": "const", "model": kind, "alt": alt}, e, o)
+    from .. import forms as _forms
+
+    for f in _forms.product(2, per_array=("f4", "i8")):
+        ctx.tick(5, ("forms", f))
+        for c, e, o in judge_forms(f):
+            ctx.violation(c, {"kind": "forms", "forms": list(f)}, e, o)
     months = [1, 7] if tier == "quick" else list(range(1, 13))
     stride = 8 if tier == "quick" else 1
     res = par.pmap(_map_job, [(m, stride) for m in months])
@@ -384,6 +400,8 @@ def replay(case):
         return [(c, e, o) for c, ct, e, o in v if ct == case["ct"] or (math.isnan(ct) and math.isnan(case["ct"]))]
     if k == "const":
         return judge_constant(case["model"], case["alt"])[0]
+    if k == "forms":
+        return judge_forms(case["forms"])
     if k == "map_history":
         return judge_map_history(case["seq"])
     if k == "map":
